@@ -217,6 +217,7 @@ type Walk struct {
 	// for them on the current path is part of the exploration state, so a
 	// path that takes `!ok` and later `ok` for the same SSA value is pruned.
 	conds map[ssa.Value]int
+	rep   map[ssa.Value]ssa.Value
 
 	seedBlock *ssa.BasicBlock
 	seedSucc  int
@@ -277,13 +278,66 @@ func comparedInIf(ph *ssa.Phi) bool {
 	return false
 }
 
+// pureRep maps a comparison whose operands are parameters or constants (its
+// value cannot change during the activation) to one representative per
+// function, so that `if p != nil {...}; ...; if p != nil {...}` is seen as
+// two tests of the same condition.
+func pureRep(fn *ssa.Function) map[ssa.Value]ssa.Value {
+	rep := map[ssa.Value]ssa.Value{}
+	first := map[string]ssa.Value{}
+	pure := func(v ssa.Value) bool {
+		switch x := v.(type) {
+		case *ssa.Parameter, *ssa.Const:
+			return true
+		case *ssa.UnOp:
+			// load of a parameter that was spilled to a cell because a closure reads it
+			if a, ok := x.X.(*ssa.Alloc); ok && x.Op == token.MUL {
+				if sv := SingleStore(a, x); sv != nil {
+					_, isParam := sv.(*ssa.Parameter)
+					return isParam
+				}
+			}
+		}
+		return false
+	}
+	for _, b := range fn.Blocks {
+		for _, in := range b.Instrs {
+			bo, ok := in.(*ssa.BinOp)
+			if !ok || !pure(bo.X) || !pure(bo.Y) {
+				continue
+			}
+			switch bo.Op {
+			case token.EQL, token.NEQ, token.LSS, token.GTR, token.LEQ, token.GEQ:
+			default:
+				continue
+			}
+			pred, pol := NormCond(bo)
+			k := pred
+			_ = pol
+			if f, ok := first[k]; ok {
+				// same predicate: representative must have the same polarity relation; only merge identical ops
+				if fb := f.(*ssa.BinOp); fb.Op == bo.Op && Desc(fb.X) == Desc(bo.X) && Desc(fb.Y) == Desc(bo.Y) {
+					rep[bo] = f
+				}
+			} else {
+				first[k] = bo
+			}
+		}
+	}
+	return rep
+}
+
 func trackedConds(fn *ssa.Function) map[ssa.Value]int {
 	cnt := map[ssa.Value]int{}
+	rep := pureRep(fn)
 	strip := func(v ssa.Value) ssa.Value {
 		for {
 			if u, ok := v.(*ssa.UnOp); ok && u.Op == token.NOT {
 				v = u.X
 				continue
+			}
+			if r, ok := rep[v]; ok {
+				return r
 			}
 			return v
 		}
@@ -485,14 +539,47 @@ func (w *Walk) From(b *ssa.BasicBlock, idx int) *Walk {
 	w.start = b
 	w.phis = boolPhis(b.Parent())
 	w.conds = trackedConds(b.Parent())
+	w.rep = pureRep(b.Parent())
 	// env layout: [phi choices..., cond assumptions...]; -1 unknown; conds: 0 false, 1 true
 	env0 := make([]int8, len(w.phis)+len(w.conds))
 	for i := range env0 {
 		env0[i] = -1
 	}
 	np := len(w.phis)
+	// facts implied by dominating branches: if the start block is only reachable
+	// through one successor edge of a dominating If, that If's condition has
+	// the corresponding truth value here
+	for d := b; d != nil; d = d.Idom() {
+		p := d.Idom()
+		if p == nil || len(p.Instrs) == 0 {
+			continue
+		}
+		if _, ok := p.Instrs[len(p.Instrs)-1].(*ssa.If); !ok || len(p.Succs) != 2 {
+			continue
+		}
+		for si := 0; si < 2; si++ {
+			s0, s1 := p.Succs[si], p.Succs[1-si]
+			if s0 != s1 && len(s0.Preds) == 1 && s0.Dominates(b) && !s1.Dominates(b) {
+				if _, has, _, cv, cvt := w.edgeAtom(p, si, env0); has && cv != nil {
+					if r, ok := w.rep[cv]; ok {
+						cv = r
+					}
+					if k, ok := w.conds[cv]; ok && env0[np+k] < 0 {
+						if cvt {
+							env0[np+k] = 1
+						} else {
+							env0[np+k] = 0
+						}
+					}
+				}
+			}
+		}
+	}
 	if w.seedBlock != nil {
 		if _, has, _, cv, cvt := w.edgeAtom(w.seedBlock, w.seedSucc, env0); has && cv != nil {
+			if r, ok := w.rep[cv]; ok {
+				cv = r
+			}
 			if k, ok := w.conds[cv]; ok {
 				if cvt {
 					env0[np+k] = 1
@@ -543,6 +630,9 @@ func (w *Walk) From(b *ssa.BasicBlock, idx int) *Walk {
 			}
 			ci := -1
 			if cv != nil {
+				if r, ok := w.rep[cv]; ok {
+					cv = r
+				}
 				if k, ok := w.conds[cv]; ok {
 					ci = np + k
 					if a := it.env[ci]; a >= 0 && (a == 1) != cvt {
